@@ -6,7 +6,7 @@ from harness import worlda
 PROP = "C05"
 CONFIG = worlda.base_config(
     rule="seeded sequential histories from 2-3 sessions (one often EXAMINE) of \\Deleted subsets, EXPUNGE / UID EXPUNGE <set> / CLOSE, COPY and MOVE with "
-    "every source/destination pair (same mailbox, missing mailbox), message/UID sets with non-existent UIDs, duplicates and out-of-range numbers; "
+    "every source/destination pair (same mailbox, missing mailbox, a \\Noselect placeholder), message/UID sets with non-existent UIDs, duplicates and out-of-range numbers; "
     "after every op the observer's UID FETCH 1:* (FLAGS INTERNALDATE BODY.PEEK[]) of source and destination is compared with the model "
     "(token multiset, UID order, flags, dates, COPYUID/APPENDUID pairing; refused or read-only commands must leave both unchanged). "
     "A second family (35%) runs the sessions concurrently (UID COPY / UID MOVE / EXPUNGE racing each other under the latency swarm) with the oracle that "
@@ -54,6 +54,21 @@ def profile(r, tier, index):
 def post(prog, r, tier, prof):
     if r.random() < 0.3:
         _common.inject_stealth(prog, r, 0.2)
+    if prog["mode"] == "sequential" and r.random() < 0.2 and prog.get("sessions"):
+        # a destination that is a \Noselect placeholder (deleted while it has a child): APPEND/COPY/MOVE into it are refused
+        # and write nothing
+        s0 = prog["sessions"][0]["id"]
+        victim = r.choice([m for m in prof["mailboxes"] if m != "inbox"])
+        i = r.randint(0, max(0, len(prog["ops"]) // 2))
+        pre = [{"s": s0, "op": "create", "name": victim + "/kid"}, {"s": s0, "op": "delete", "name": victim}]
+        tail = []
+        for op in prog["ops"][i:]:
+            tail.append(op)
+            if op.get("op") in ("copy", "move") and r.random() < 0.5:
+                op["dst"] = victim
+            if op.get("op") == "append" and r.random() < 0.5:
+                op["mbox"] = victim
+        prog["ops"] = prog["ops"][:i] + pre + tail
     if prog["mode"] == "concurrent":
         for op in prog["ops"]:
             op["when"] = {"delay": r.choice((0.0, 0.0, 0.0, 0.001, 0.01, 0.05, 0.3))}
